@@ -285,3 +285,205 @@ def build_toy_classes(schemas):
     for k in range(len(schemas)):
         build(k)
     return classes
+
+
+# ------------------------------------------------------------------ histories of decode calls (spec/codec/TlvStructHist*.tla)
+# A message node is {"f": [entry per init field], "x": [] | [bytes]}: entries [] unset, [bytes] scalar / packed ids,
+# [node] nested message, [[node, ...]] list; x = the state the library keeps on the object outside the wire fields
+# (the non-init dataclass fields, e.g. the raw value of a characteristic).
+def aux_fields(cls):
+    return [f for f in dataclasses.fields(cls) if not f.init]
+
+
+def node_of(classes, schemas, c, obj):
+    """What can be read through a decoded message now."""
+    cls = classes[c - 1]
+    if type(obj) is not cls:
+        raise Unrepresentable(f"expected {cls.__name__}, got {type(obj).__name__}")
+    ents = []
+    for f, fs in zip(init_fields(cls), schemas[c - 1]["fields"]):
+        v = getattr(obj, f.name)
+        k = fs["kind"]
+        if v is None:
+            ents.append([])
+        elif k == "struct":
+            ents.append([node_of(classes, schemas, fs["inner"], v)])
+        elif k == "seq":
+            if not isinstance(v, (list, tuple)):
+                raise Unrepresentable(f"{f.name}: expected a list, got {type(v).__name__}")
+            ents.append([[node_of(classes, schemas, fs["inner"], it) for it in v]])
+        else:
+            one = from_instance_field(f, fs, v)
+            ents.append([one])
+    x = []
+    for f in aux_fields(cls):
+        v = getattr(obj, f.name)
+        if v is not None and v != f.default:
+            if not isinstance(v, (bytes, bytearray)):
+                raise Unrepresentable(f"{f.name}: library state {v!r}")
+            x = [list(bytes(v))]
+    return {"f": ents, "x": x}
+
+
+def from_instance_field(f, fs, v):
+    k = fs["kind"]
+    if k == "int":
+        return _int_bytes(v, fs["w"])
+    if k == "enum":
+        if not isinstance(v, f.type):
+            raise Unrepresentable(f"{f.name}: expected {f.type.__name__}, got {v!r}")
+        return [int(v)]
+    if k == "bytes":
+        if not isinstance(v, (bytes, bytearray)):
+            raise Unrepresentable(f"{f.name}: expected bytes, got {type(v).__name__}")
+        return list(bytes(v))
+    if k == "str":
+        if not isinstance(v, str):
+            raise Unrepresentable(f"{f.name}: expected str, got {type(v).__name__}")
+        return list(v.encode("utf-8"))
+    if k == "ids":
+        if not isinstance(v, (list, tuple)):
+            raise Unrepresentable(f"{f.name}: expected a list, got {type(v).__name__}")
+        return [_int_bytes(it, fs["w"]) for it in v]
+    raise Unrepresentable(f"{f.name}: value {v!r} in a field without serialiser")
+
+
+def node_paths(schemas, c, node, prefix=()):
+    """[(path, class index, node)] of every message node, pre-order.  Steps are [i] / [i, k], 1-based."""
+    out = [(list(prefix), c, node)]
+    for i, (fs, e) in enumerate(zip(schemas[c - 1]["fields"], node["f"]), start=1):
+        if not e:
+            continue
+        if fs["kind"] == "struct":
+            out += node_paths(schemas, fs["inner"], e[0], prefix + ([i],))
+        elif fs["kind"] == "seq":
+            for k, it in enumerate(e[0], start=1):
+                out += node_paths(schemas, fs["inner"], it, prefix + ([i, k],))
+    return out
+
+
+def obj_at(classes, schemas, c, obj, path):
+    for st in path:
+        f = init_fields(classes[c - 1])[st[0] - 1]
+        fs = schemas[c - 1]["fields"][st[0] - 1]
+        obj = getattr(obj, f.name)
+        if len(st) == 2:
+            obj = obj[st[1] - 1]
+        c = fs["inner"]
+    return c, obj
+
+
+def scalar_value(f, fs, w):
+    """Python value of a scalar field from its bytes."""
+    k = fs["kind"]
+    if k == "int":
+        return int.from_bytes(bytes(w), "little")
+    if k == "enum":
+        return f.type(w[0])
+    if k == "bytes":
+        return bytes(w)
+    if k == "str":
+        return bytes(w).decode("utf-8")
+    raise ValueError(k)
+
+
+def junk_for(rng, fs):
+    k = fs["kind"]
+    if k == "int":
+        return [rng.randrange(256) for _ in range(fs["w"])]
+    if k == "enum":
+        return [rng.choice(fs["vals"])]
+    if k == "bytes":
+        return [rng.randrange(256) for _ in range(rng.randrange(1, 5))]
+    if k == "str":
+        return [rng.randrange(97, 123) for _ in range(rng.randrange(1, 5))]
+    return None
+
+
+def apply_write(classes, schemas, c, root, path, kind, j, w):
+    """Make the write [kind, j, w] (TlvStructHist.Writes) to the node at `path` of a decoded message."""
+    c, obj = obj_at(classes, schemas, c, root, path)
+    cls = classes[c - 1]
+    if kind == "x":
+        _set(obj, aux_fields(cls)[0].name, bytes(w))
+        return
+    f = init_fields(cls)[j - 1]
+    fs = schemas[c - 1]["fields"][j - 1]
+    if kind == "u":
+        _set(obj, f.name, None)
+    elif kind == "s":
+        _set(obj, f.name, scalar_value(f, fs, w))
+    elif kind == "c":
+        _clear(getattr(obj, f.name))
+    else:
+        raise ValueError(kind)
+
+
+def possible_writes(rng, classes, schemas, c, node):
+    out = []
+    if aux_fields(classes[c - 1]):
+        out.append(["x", 0, [rng.randrange(256) for _ in range(rng.randrange(1, 5))]])
+    for j, (fs, e) in enumerate(zip(schemas[c - 1]["fields"], node["f"]), start=1):
+        if e:
+            out.append(["u", j, []])
+        if fs["kind"] in ("int", "enum", "bytes", "str"):
+            out.append(["s", j, junk_for(rng, fs)])
+        if fs["kind"] == "seq" and e and isinstance(getattr_safe(e), list):
+            out.append(["c", j, []])
+    return out
+
+
+def getattr_safe(e):
+    return e[0]
+
+
+class NotWritable(Exception):
+    """The decoded message (or a list in it) is immutable: nothing a caller does can be seen by a later decode."""
+
+
+def _set(obj, name, value):
+    try:
+        setattr(obj, name, value)
+    except (AttributeError, TypeError) as ex:       # frozen dataclass / slots / read-only property
+        raise NotWritable(str(ex)) from ex
+
+
+def _clear(lst):
+    try:
+        lst.clear()
+    except (AttributeError, TypeError) as ex:       # tuple
+        raise NotWritable(str(ex)) from ex
+
+
+def scribble(rng, classes, schemas, c, obj, depth=0):
+    """Overwrite every field of a decoded message, nested messages and list items first (what a careless caller -
+    or the library, for its own state - may do to a result it owns).  Immutable parts are left alone."""
+    try:
+        _scribble(rng, classes, schemas, c, obj, depth)
+    except NotWritable:
+        pass
+
+
+def _scribble(rng, classes, schemas, c, obj, depth=0):
+    cls = classes[c - 1]
+    if type(obj) is not cls or depth > 20:
+        return
+    for f, fs in zip(init_fields(cls), schemas[c - 1]["fields"]):
+        v = getattr(obj, f.name)
+        k = fs["kind"]
+        if k == "struct" and v is not None:
+            _scribble(rng, classes, schemas, fs["inner"], v, depth + 1)
+            _set(obj, f.name, None)
+        elif k == "seq" and isinstance(v, list):
+            for it in v:
+                _scribble(rng, classes, schemas, fs["inner"], it, depth + 1)
+            _clear(v)
+            _set(obj, f.name, None)
+        elif k in ("int", "enum", "bytes", "str"):
+            _set(obj, f.name, scalar_value(f, fs, junk_for(rng, fs)) if rng.random() < 0.7 else None)
+        elif k == "ids" and isinstance(v, list):
+            _clear(v)
+        else:
+            _set(obj, f.name, None)
+    for f in aux_fields(cls):
+        _set(obj, f.name, b"scribble")
